@@ -36,7 +36,7 @@ def run_corr(script, tier, seed):
     path = os.path.join(common.VERIF, 'tools', 'corr', script)
     driver = os.path.join(common.LEAN_DIR, '.lake', 'build', 'bin', 'driver')
     n = props_mod.CORR_N.get(script, {}).get(tier, 3000)
-    env = dict(os.environ, VERIF_SEED=str(seed))
+    env = dict(os.environ, VERIF_SEED=str(seed), VERIF_REPO=common.REPO, PYTHONPATH=common.REPO)
     try:
         p = subprocess.run(['/venv/bin/python', path, '--lean-dir', common.LEAN_DIR, '--driver', driver, '--n', str(n)],
                            capture_output=True, text=True, env=env, timeout=1800)
@@ -69,6 +69,12 @@ def main():
     evidence = {'property_id': prop, 'tier': tier, 'seed': seed, 'level': 'proof', 'coverage': {}, 'wall_s': 0.0,
                 'violations': 0, 'assumptions': TRUSTED_BASE + cfg.get('assumptions', [])}
     violations = []     # (kind, payload)
+    import glob
+    for old in glob.glob(os.path.join(common.VERIF, 'replays', '%s-%d-*.json' % (prop, seed))):
+        try:
+            os.remove(old)
+        except OSError:
+            pass
     try:
         # ---- 1-2 model + proofs
         prep = prep_mod.prepare()
